@@ -5,12 +5,12 @@ entry) and None elsewhere (a truthy preact would *interrupt* precur)."""
 from ioflo.base import doing
 
 TRACE = []          # events appended by the behaviours
-STATE = {"tick": 0, "watch": [], "store": None, "boom": None, "calls": {}}
+STATE = {"tick": 0, "watch": [], "store": None, "boom": None, "calls": {}, "framers": None}
 
 
-def reset(watch=(), store=None, boom=None):
+def reset(watch=(), store=None, boom=None, framers=None):
     del TRACE[:]
-    STATE.update(tick=0, watch=list(watch), store=store, boom=boom, calls={})
+    STATE.update(tick=0, watch=list(watch), store=store, boom=boom, calls={}, framers=framers)
 
 
 def snapshot(store):
@@ -39,7 +39,8 @@ def vfRec(self, tag="", **kwa):
     TRACE.append({"k": "act", "tick": STATE["tick"], "stamp": self.store.stamp,
                   "framer": framer.name, "frame": frame.name, "ctx": ctx, "tag": tag,
                   "n": n, "elapsed": framer.elapsedShr.value, "recurred": framer.recurredShr.value,
-                  "snap": snapshot(self.store) if STATE["watch"] else None})
+                  "snap": snapshot(self.store) if STATE["watch"] else None,
+                  "done": ({f.name: bool(f.done) for f in STATE["framers"]} if STATE["framers"] else None)})
     boom = STATE["boom"]
     if boom and boom[0] == tag and boom[1] == n:
         if boom[2] == "KeyboardInterrupt":
